@@ -361,7 +361,7 @@ func c13r3(c *RC) {
 			ast.Inspect(l.Body, func(n ast.Node) bool {
 				if a, isA := n.(*ast.AssignStmt); isA && len(a.Lhs) == 1 && len(l.Type.Params.List) == 1 && len(l.Type.Params.List[0].Names) == 1 {
 					sh := l.Type.Params.List[0].Names[0].Name
-					if be, isBe := ast.Unparen(a.Rhs[0]).(*ast.BinaryExpr); isBe && strings.Contains(expr(a.Lhs[0]), "shardIsCached["+sh+"]") && be.Op == token.EQL && expr(be.Y) == "nil" {
+					if _, nn, isT := nilTest(a.Rhs[0]); isT && !nn && strings.Contains(expr(a.Lhs[0]), "shardIsCached["+sh+"]") {
 						// the compared value is the error of file.Stat on the shard's path
 						ok = true
 					}
